@@ -1362,3 +1362,54 @@ def private_name_role_renames(prog: Program) -> list[str]:
                 log.append(f"{mod.name}: private name {actual} analysed as {canon} (the role it plays)")
     return log
 
+
+def wrapper_ctor_param_renames(prog: Program) -> list[str]:
+    """The constructor parameters of the private wrapper classes are named after what the public decorator passes into them:
+    `_AsyncThrottle(function, allowed=limit, window=period)` is analysed as `_AsyncThrottle(function, limit=limit,
+    period=period)` (parameter, its uses inside __init__, and the keywords at the construction sites)."""
+    log: list[str] = []
+    for mod in prog.modules.values():
+        if mod.name not in _WRAPPER_CLASSES:
+            continue
+        pub_name, by_kind = _WRAPPER_CLASSES[mod.name]
+        pub = _impl(mod, pub_name)
+        if pub is None:
+            continue
+        pub_params = {a.arg for a in pub.args.posonlyargs + pub.args.args + pub.args.kwonlyargs}
+        for cname in by_kind.values():
+            cdef = next((s for s in mod.tree.body if isinstance(s, ast.ClassDef) and s.name == cname), None)
+            init = next((m for m in cdef.body if isinstance(m, ast.FunctionDef) and m.name == "__init__"), None) if cdef is not None else None
+            if init is None:
+                continue
+            iparams = [a.arg for a in init.args.posonlyargs + init.args.args][1:]
+            kwonly = [a.arg for a in init.args.kwonlyargs]
+            sites = [c for c in ast.walk(pub) if isinstance(c, ast.Call) and isinstance(c.func, ast.Name) and c.func.id == cname]
+            wanted: dict[str, set[str]] = {}
+            for c in sites:
+                for i, a in enumerate(c.args):
+                    if isinstance(a, ast.Name) and i < len(iparams) and a.id in pub_params | {"function", "wrapped"}:
+                        wanted.setdefault(iparams[i], set()).add(a.id)
+                for k in c.keywords:
+                    v = k.value
+                    # cast(T, x) / `None if x is MISSING else x` still name the source parameter
+                    names = {n.id for n in ast.walk(v) if isinstance(n, ast.Name) and n.id in pub_params}
+                    if k.arg and len(names) == 1:
+                        wanted.setdefault(k.arg, set()).add(next(iter(names)))
+            ren = {p: next(iter(v)) for p, v in wanted.items() if len(v) == 1 and next(iter(v)) != p and p in iparams + kwonly and next(iter(v)) not in iparams + kwonly and next(iter(v)) not in ("function", "wrapped")}
+            if not ren:
+                continue
+            stored_elsewhere = {n.id for n in ast.walk(init) if isinstance(n, ast.Name) and isinstance(n.ctx, ast.Store)}
+            ren = {p: q for p, q in ren.items() if q not in stored_elsewhere}
+            for n in ast.walk(init):
+                if isinstance(n, ast.arg) and n.arg in ren:
+                    n.arg = ren[n.arg]
+                elif isinstance(n, ast.Name) and n.id in ren:
+                    n.id = ren[n.id]
+            for c in sites:
+                for k in c.keywords:
+                    if k.arg in ren:
+                        k.arg = ren[k.arg]
+            for p_, q_ in ren.items():
+                log.append(f"{mod.name}: constructor parameter {cname}.__init__({p_}) analysed as `{q_}` (what {pub_name}() passes into it)")
+    return log
+
